@@ -162,7 +162,7 @@ class PushPayloadOb(Obligation):
 
 def obligations(ctx, cfg):
     q = cfg['tier'] == 'quick'
-    return [ParseAndMap(), PublishStep(ctx, 1, 2 if q else 3, id_='C09.b'), MessageIdNew(), CreateTopic(), PushPayloadOb()]
+    return [ParseAndMap(), PublishStep(ctx, 1 if q else 2, 2 if q else 3, id_='C09.b'), MessageIdNew(), CreateTopic(), PushPayloadOb()]
 
 
 def native_replay(ob_id, v):
